@@ -28,11 +28,13 @@ Suppressions:
 """
 
 import ast
+import re
 from pathlib import Path
 
 from src.core.base import BaseLintContext, MultiLanguageLintRule
 from src.core.linter_utils import load_linter_config
 from src.core.types import Violation
+from src.linter_config.rule_matcher import check_bracket_rules
 
 from .config import MethodPropertyConfig
 from .python_analyzer import PropertyCandidate, PythonMethodAnalyzer
@@ -328,9 +330,11 @@ class MethodPropertyRule(MultiLanguageLintRule):  # thailint: ignore[srp,dry]
 
         line_lower = line_text.lower()
 
-        # Check for thailint: ignore[method-property]
+        # Check for thailint: ignore[method-property]; a bracketed rule list must name this rule,
+        # the bare form (optionally followed by a reason) applies to every rule
         if "thailint:" in line_lower and "ignore" in line_lower:
-            return True
+            bracket = re.search(r"ignore[\w-]*\[([^\]]*)\]", line_text, re.IGNORECASE)
+            return bracket is None or check_bracket_rules(bracket.group(1), violation.rule_id)
 
         # Check for noqa
         if "# noqa" in line_lower:
